@@ -3,10 +3,16 @@ package c13
 
 import (
 	"bytes"
+	"crypto/sha256"
 	"encoding/binary"
+	"encoding/hex"
+	"encoding/json"
 	"errors"
 	"fmt"
 	"math/rand"
+	"os"
+	"os/exec"
+	"path/filepath"
 	"strconv"
 	"strings"
 
@@ -301,7 +307,132 @@ func (prop) Gen(r *rand.Rand, tier string) []core.Case {
 			add("checksum", "checksum", "img", core.Hex(img), "map", showMap(f))
 		}
 	}
+	// the fmap command-line tool on images holding exactly one valid map with printable names
+	ncli := 12
+	if tier == "thorough" {
+		ncli = 150
+	}
+	for i := 0; i < ncli; i++ {
+		imgLen := 512 + r.Intn(1024)
+		img := randImage(r, imgLen)
+		for j := range img { // no accidental signatures
+			if img[j] == '_' {
+				img[j] = 'x'
+			}
+		}
+		f := &fmap.FMap{}
+		copy(f.Signature[:], fmap.Signature)
+		f.VerMajor, f.VerMinor, f.Base, f.Size = 1, uint8(r.Intn(3)), 0xff000000, uint32(imgLen)
+		copy(f.Name.Value[:], "FLASH")
+		for k := 0; k < r.Intn(5); k++ {
+			var a fmap.Area
+			a.Size = uint32(r.Intn(64))
+			a.Offset = uint32(r.Intn(imgLen - 64))
+			copy(a.Name.Value[:], fmt.Sprintf("AREA%d", k))
+			a.Flags = uint16(r.Intn(8))
+			f.Areas = append(f.Areas, a)
+		}
+		f.NAreas = uint16(len(f.Areas))
+		enc := encodeMap(f)
+		start := r.Intn(imgLen - len(enc))
+		copy(img[start:], enc)
+		add("cli", "cli", "img", core.Hex(img), "start", strconv.Itoa(start), "map", showMap(f),
+			"edit", strconv.Itoa(r.Intn(1000)))
+	}
 	return cs
+}
+
+func cliPath() string {
+	root := os.Getenv("VERIF_ROOT")
+	if root == "" {
+		root = "/verif"
+	}
+	return filepath.Join(root, "harness", "bin", "fmapcli")
+}
+
+func runCLI(args ...string) (string, error) {
+	cmd := exec.Command(cliPath(), args...)
+	var out bytes.Buffer
+	cmd.Stdout = &out
+	err := cmd.Run()
+	return out.String(), err
+}
+
+// runCLICase drives cmds/fmap (jget, jput, checksum, extract) on a temp copy of the image.
+func runCLICase(c core.Case, out *core.Outcome) {
+	O := func(what, exp, got string) {
+		out.Checks = append(out.Checks, core.Check{Tag: "O", What: what, Exp: exp, Got: got})
+	}
+	img := core.UnHex(c.Args["img"])
+	f := parseMap(c.Args["map"])
+	start, _ := strconv.Atoi(c.Args["start"])
+	dir, err := os.MkdirTemp("", "c13cli")
+	must(err)
+	defer os.RemoveAll(dir)
+	F, J := filepath.Join(dir, "flash.bin"), filepath.Join(dir, "map.json")
+	must(os.WriteFile(F, img, 0o644))
+	out.Class = "cli:ok"
+	// jget: the JSON holds the map that is in the image
+	if _, err := runCLI("jget", J, F); err != nil {
+		O("cli-jget", "ok", "err")
+		return
+	}
+	jb, err := os.ReadFile(J)
+	must(err)
+	var js struct {
+		FMap     *fmap.FMap
+		Metadata *fmap.Metadata
+	}
+	if err := json.Unmarshal(jb, &js); err != nil || js.FMap == nil || js.Metadata == nil {
+		O("cli-jget-json", "parses", "does not parse")
+		return
+	}
+	O("cli-jget-map", fmt.Sprintf("%d %s", start, showMap(f)), fmt.Sprintf("%d %s", js.Metadata.Start, showMap(js.FMap)))
+	// jput of the unmodified JSON leaves the file unchanged
+	if _, err := runCLI("jput", J, F); err != nil {
+		O("cli-jput", "ok", "err")
+		return
+	}
+	after, _ := os.ReadFile(F)
+	O("cli-jput-jget-id", "same", same(bytes.Equal(after, img)))
+	// checksum = sha256 over the static areas in table order
+	h := sha256.New()
+	for _, a := range f.Areas {
+		if a.Flags&fmap.FmapAreaStatic != 0 {
+			h.Write(img[a.Offset : a.Offset+a.Size])
+		}
+	}
+	sum, err := runCLI("checksum", "sha256", F)
+	O("cli-checksum", "ok "+hex.EncodeToString(h.Sum(nil)), core.ErrClass(err)+" "+strings.TrimSpace(sum))
+	// extract by index and by name
+	if len(f.Areas) > 0 {
+		e, _ := strconv.Atoi(c.Args["edit"])
+		i := e % len(f.Areas)
+		a := f.Areas[i]
+		got, err := runCLI("extract", strconv.Itoa(i), F)
+		O("cli-extract-index", "ok "+core.Hex(img[a.Offset:a.Offset+a.Size]), core.ErrClass(err)+" "+core.Hex([]byte(got)))
+		got, err = runCLI("extract", a.Name.String(), F)
+		O("cli-extract-name", "ok "+core.Hex(img[a.Offset:a.Offset+a.Size]), core.ErrClass(err)+" "+core.Hex([]byte(got)))
+		// edit one field in the JSON, jput, read back in-process: exactly that field changed,
+		// bytes outside the map untouched
+		js.FMap.Areas[i].Flags ^= 0x4
+		js.FMap.Areas[i].Size += 1
+		nb, _ := json.Marshal(js)
+		must(os.WriteFile(J, nb, 0o644))
+		if _, err := runCLI("jput", J, F); err != nil {
+			O("cli-jput-edit", "ok", "err")
+			return
+		}
+		after, _ = os.ReadFile(F)
+		f2, m2, rerr := fmap.Read(bytes.NewReader(after))
+		want := *f
+		want.Areas = append([]fmap.Area(nil), f.Areas...)
+		want.Areas[i].Flags ^= 0x4
+		want.Areas[i].Size += 1
+		O("cli-jput-edit-read", fmt.Sprintf("ok %d %s", start, showMap(&want)), readRes(f2, m2, rerr))
+		end := start + len(encodeMap(f))
+		O("cli-jput-edit-confined", "same same", same(bytes.Equal(after[:start], img[:start]))+" "+same(bytes.Equal(after[end:], img[end:])))
+	}
 }
 
 // ---- running the implementation
@@ -336,6 +467,8 @@ func (prop) Run(c core.Case) core.Outcome {
 		out.Checks = append(out.Checks, core.Check{Tag: "O", What: what, Exp: exp, Got: got})
 	}
 	switch c.Op {
+	case "cli":
+		runCLICase(c, &out)
 	case "read":
 		f, m, err := fmap.Read(bytes.NewReader(img))
 		res := readRes(f, m, err)
